@@ -4,4 +4,6 @@ go 1.26.0
 
 require github.com/robbyt/go-supervisor v0.0.0
 
+require github.com/robbyt/go-fsm/v2 v2.3.0 // indirect
+
 replace github.com/robbyt/go-supervisor => /repo
